@@ -5,10 +5,10 @@ sys.path.insert(0, os.path.dirname(os.path.abspath(__file__)))
 import vx, run
 props = sys.argv[1].split(",") if len(sys.argv) > 1 else ["C%02d" % i for i in range(1, 19)]
 seeds = [int(x) for x in (sys.argv[2].split(",") if len(sys.argv) > 2 else ["0", "1", "2"])]
-out = "/tmp/vsweep"; os.makedirs(out, exist_ok=True)
+out = os.environ.get("SWEEP_OUT", "/root/scratch/vsweep"); os.makedirs(out, exist_ok=True)
 bad = collections.Counter()
 for p in props:
-    repo = vx.Repo("/repo"); ov = vx.parse_overlay("/verif/contracts/all.vs")
+    repo = vx.Repo(os.environ.get("VERIF_REPO", "/repo")); ov = vx.parse_overlay("/verif/contracts/all.vs")
     if not any(p in fs.serves for fs in ov.fns.values()): continue
     u = vx.generate(repo, ov, p)
     path = os.path.join(out, "unit_%s.rs" % p); open(path, "w").write(u.text)
